@@ -19,14 +19,14 @@ RULE = ('Cases: paired FASTQ read sets over a 2k..6k-base genome (read lengths f
         'equals the model sequence of passing windows in read order (Python ntHash); no Bloom false negative; counts '
         'increase by one per Bloom hit; a k-mer is accepted exactly when the count reaches C (C=2: from the second sighting '
         'on).  An extra dictionary entry is excused only by an observed Bloom false positive or an observed 64-bit hash '
-        'collision; a missing entry never.  Builds of 2..20 read-pair samples with --threads 1..8 are compared column by column with the per-sample model.  --min-count auto (k in 15..63, both widths; two samples whose four read files hold the same reads, so that it does not matter which two files the program fits its model on) must use the cutoff `ska cov` reports for those reads, print the same table and obey the counting rule at that count.  Fault injection on the input: a read file with one malformed record (quality string of another length, missing + line) or a gzip stream cut in its middle is either refused (non-zero exit, no .skf) or loses no k-mer that reaches the count among the well-formed records.  Non-trivial: some k-mer is below and some at/above the count, or a quality '
+        'collision; a missing entry never.  Builds of 2..20 read-pair samples with --threads 1..8 are compared column by column with the per-sample model.  --min-count auto (k in 15..63, both widths; two samples whose four read files hold the same reads, so that it does not matter which two files the program fits its model on) must use the cutoff `ska cov` reports for those reads, print the same table and obey the counting rule at that count.  A sixth of the cases also build with one file named in both columns (every window counted twice).  Fault injection on the input: a read file with one malformed record (quality string of another length, missing + line) or a gzip stream cut in its middle is either refused (non-zero exit, no .skf) or loses no k-mer that reaches the count among the well-formed records.  Non-trivial: some k-mer is below and some at/above the count, or a quality '
         'equals the threshold; distinct = distinct (parameters, reads).')
 ASSUMPTIONS = ['the exact counter in this file states the specification; quality = ASCII - 33',
                'hooked runs use --threads 1 so that the event order is the read order']
 REQUIRED = {t: ['rule:none', 'rule:middle', 'rule:strict', 'quality_equal_threshold', 'probes_at_C', 'probes_below_C',
                 'probes_above_C', 'filter_calls_monitored', 'accepts_monitored', 'mincount:1', 'mincount:2', 'mincount:3+',
                 'kmers_included', 'kmers_excluded_by_count'] for t in ('quick', 'thorough')}
-REQUIRED['quick'] = REQUIRED['quick'] + ['large_input_distinct_kmers', 'multi_sample_builds', 'multi_sample_parallel_builds', 'damaged_input_refused', 'auto_mincount_builds', 'auto_width64', 'auto_width128']
+REQUIRED['quick'] = REQUIRED['quick'] + ['large_input_distinct_kmers', 'multi_sample_builds', 'multi_sample_parallel_builds', 'damaged_input_refused', 'auto_mincount_builds', 'auto_width64', 'auto_width128', 'same_file_in_both_columns']
 REQUIRED['thorough'] = REQUIRED['quick']
 RULES = {'none': 'no-filter', 'middle': 'middle', 'strict': 'strict'}
 
@@ -536,6 +536,28 @@ def run_case(desc, ctx):
                     res.violate(sig + ':collision-rate', '%d extra entries among %d distinct k-mers (>= 0.1%%)' % (len(extra), len(counts)), detail)
             if exp and any(c < minc for c in counts.values()):
                 res.nontrivial.append(fingerprint([k, rcmode, rule, minc, minq, desc['seed']]))
+    if not desc.get('large') and desc['seed'] % 6 == 3:
+        # the same file named in both columns of the list: every window is then seen twice ("across both files")
+        ctx.write('list2', 'S\t%s\t%s\n' % (ctx.path('r0.fastq'), ctx.path('r0.fastq')))
+        p2 = G.ska_build(ctx, ctx.path('same'), ['-f', ctx.path('list2'), '--min-count', minc, '--min-qual', minq, '--qual-filter', RULES[rule]], k, rcmode)
+        res.evals += 1
+        c2 = {}
+        for w in passing_windows(reads[0], k, rcmode, minq, rule):
+            c2[w] = c2.get(w, 0) + 2
+        exp2 = dictionary(c2, k, rcmode, minc)
+        if p2.returncode != 0:
+            if exp2:
+                res.violate(sig + ':same-file-failed', 'k=%d min-count=%d: build with one file named in both columns fails although %d k-mers reach the count: %s'
+                            % (k, minc, len(exp2), p2.stderr.strip()[-160:]), detail)
+        else:
+            _h2, T2 = G.nk(ctx, ctx.path('same.skf'))
+            lost2 = [a for a in exp2 if a not in T2]
+            other2 = [a for a in T2 if T2[a] != [exp2.get(a)]]
+            if lost2 or len(other2) > max(1, len(c2) // 1000):
+                res.violate(sig + ':same-file', 'k=%d rc=%s min-count=%d rule=%s: one file named in both columns: %d k-mers that reach the count (each window counted twice) are missing, %d entries differ'
+                            % (k, rcmode, minc, rule, len(lost2), len(other2)), detail)
+            else:
+                res.count('same_file_in_both_columns')
     if res.sample is None and not desc.get('large'):
         res.sample = {'k': k, 'rc': rcmode, 'rule': rule, 'min_count': minc, 'min_qual': minq, 'reads_file1': len(reads[0]),
                       'reads_file2': len(reads[1]), 'first_read': reads[0][0], 'passing_windows': len(pw), 'qualifying_kmers': len(exp)}
